@@ -55,8 +55,9 @@ THEOREMS = ["LB_unm_results_of_class", "LB_unm_results_instances", "LB_unm_isins
             "C13_idempotent_from_serdes_model", "C03_conforms_from_scalar_model",
             "C06_wire_from_scalar_model", "C06_literal_rejects_from_scalar_model", "LB_refuted_round_exact_with_fold",
             "LB_refuted_fold_scalar", "LB_refuted_enum_bytes_value", "LB_refuted_pattern_flags",
-            "LB_refuted_round_for_instances", "LB_zero_duration_roundtrips"]
-EXAMPLES = ["LB_coding_law_satisfiable", "LB_std_shape_laws", "LB_serdes_load_satisfiable", "LB_laws_satisfiable",
+            "LB_refuted_round_for_instances", "LB_zero_duration_roundtrips", "LB_any_leaf_noop", "LB_refuted_any_wire",
+            "LB_uuid_text_from_serdes", "LB_runtime_laws_with_serdes_load"]
+EXAMPLES = ["LB_coding_law_satisfiable", "LB_any_instance", "LB_std_text_laws", "LB_std_shape_laws", "LB_serdes_load_satisfiable", "LB_laws_satisfiable",
             "LB_C01_instance"]
 PROPS = [("Props/LeafBridge.v", THEOREMS)]
 
@@ -82,6 +83,7 @@ KINDS = {
     "LInt": "RInt", "LFloat": "RFloat", "LStr": "RStr", "LBytes": "RBytes", "LDec": "RDec", "LFrac": "RFrac",
     "LUuid": "RUuid", "LPath": "RPath", "LEnum": "REnum", "LDate": "RDate", "LDateTime": "RDateTime", "LTime": "RTime",
     "LTimeDelta": "RTimeDelta", "LBool": "RBool", "LPattern": "RPattern", "LNone": "RNone", "LLit": "RLit",
+    "LAny": None,       # pass-through: no scalar routine, the identity on every core value
 }
 LEAF_ENUMS = c04.ENUMS + [ETuple, EBytes]
 MIXINS = [c04.ESMix.a, c04.ESMix.five, c04.EIntEnum.x, c04.EIntEnum.y]
@@ -159,6 +161,9 @@ def gen_valid(kind, rng):
         L = rng.choice(c04.LITERALS)
         ms = typing.get_args(L)
         return ("LLit", ms), L, rng.choice(ms)
+    if kind == "LAny":      # anything goes through typing.Any / object unchanged
+        k = rng.choice([k for k in KINDS if k not in ("LAny", "LLit")])
+        return kind, rng.choice([typing.Any, object]), gen_valid(k, rng)[2]
     raise KeyError(kind)
 
 
@@ -196,6 +201,8 @@ def gen_cross(kind, rng):
         return kind, re.Pattern, rng.choice(["a+", b"a", 5, None, True, c04.ESMix.a, g["date"](rng), 1.5])
     if kind == "LNone":
         return kind, type(None), rng.choice([0, "null", "", False, b"", 1.5, g["date"](rng), sub()])
+    if kind == "LAny":
+        return gen_valid(kind, rng)
     if kind == "LLit":
         L = rng.choice(c04.LITERALS)
         ms = typing.get_args(L)
@@ -483,6 +490,8 @@ def kind_of_class(t):
     if typing.get_origin(t) is typing.Literal:
         ms = typing.get_args(t)
         return ("LLit", ms) if all(c04.in_val(m) for m in ms) else None
+    if t is typing.Any or t is object or t is typing.Callable or t is type:
+        return "LAny"            # inspection.isunresolvable: NoOpUnmarshaller / NoOpMarshaller
     if not isinstance(t, type):
         return None
     if issubclass(t, enum.Enum):
@@ -519,9 +528,9 @@ def _obj_of(reg, names, term):
 def leaf_tables_tie(run, groups, tag):
     """every scalar leaf call the core mirror recorded on this run (leaf_u / leaf_m / none_u tables of the runtime the
     core correspondence evaluates Core.unm / Core.mar on), re-evaluated on the scalar model"""
-    ucases, mcases, ncases = [], [], []
+    ucases, mcases, ncases, acases, abad = [], [], [], [], []
     ucoq, mcoq, ncoq = [], [], []
-    skipped = {"leaf outside the scalar model (Any, bare containers, exotic)": 0,
+    skipped = {"leaf outside the scalar model (bare containers, exotic)": 0,
                "input is not a scalar of Temporal.val (container, naive temporal, other object)": 0,
                "result is not a scalar of Temporal.val": 0}
 
@@ -541,7 +550,15 @@ def leaf_tables_tie(run, groups, tag):
                 T = reg.leaf_py.get(s)
                 kind = kind_of_class(T)
                 if kind is None:
-                    skipped["leaf outside the scalar model (Any, bare containers, exotic)"] += 1
+                    skipped["leaf outside the scalar model (bare containers, exotic)"] += 1
+                    continue
+                if kind == "LAny":
+                    # a pass-through leaf of the bridged runtime hands EVERY core value back (containers included):
+                    # the recorded result must be the recorded input, term for term
+                    acases.append({"layer": "leaf-tables", "side": side, "kind": "LAny", "type": str(T)[:40], "input": key[:120],
+                                   "observed": res[:120]})
+                    if res != f"(Ok {key})":
+                        abad.append(acases[-1])
                     continue
                 ok, x = _obj_of(reg, names, key)
                 if not ok or not in_val(x):
@@ -586,7 +603,8 @@ def leaf_tables_tie(run, groups, tag):
             ncoq.append(f"({c04.answers(a_utf8=utf8) if b is not None else c04.answers()}, {c04.emit_val(x)}, {o})")
     container_bad = [ncases[i] for i, c in enumerate(ncoq) if c is False]
     keep = [i for i, c in enumerate(ncoq) if isinstance(c, str)]
-    dist = {"unmarshal_calls": len(ucases), "marshal_calls": len(mcases), "none_calls": len(ncases), "skipped": skipped}
+    dist = {"unmarshal_calls": len(ucases), "marshal_calls": len(mcases), "none_calls": len(ncases),
+            "pass_through_calls(LAny)": len(acases), "skipped": skipped}
     by = {}
     for c in ucases + mcases:
         k = f"{c['side']}:{c['kind']}"
@@ -598,8 +616,8 @@ def leaf_tables_tie(run, groups, tag):
     ubad = [i for i in ubad if i not in set(uunm)]
     mbad = [i for i in mbad if i not in set(munm)]
     dist["outside the scalar model (model answers Unmodelled: time-only text to date, int(bytes), ...)"] = len(uunm) + len(munm)
-    bad = [ucases[i] for i in ubad] + [mcases[i] for i in mbad] + [ncases[keep[i]] for i in nbad] + container_bad
-    total = len(ucases) + len(mcases) + len(ncases)
+    bad = [ucases[i] for i in ubad] + [mcases[i] for i in mbad] + [ncases[keep[i]] for i in nbad] + container_bad + abad
+    total = len(ucases) + len(mcases) + len(ncases) + len(acases)
     run.record_corr(f"leaf-tables[{tag}](the scalar leaf tables of this core run = the bridged runtime of Model/LeafBridge.v)",
                     total, bad, total - len(uunm) - len(munm), dist)
     run.extra_cov.setdefault("leafbridge", {}).setdefault("leaf_tables", {})[tag] = {
@@ -630,6 +648,6 @@ def obligations(run, groups=None, tag="core", props=True, streams=True):
         "path enum date datetime time timedelta (Props/LeafBridge.v); what remains assumed there: Scalars.RuntimeLaws "
         "(sampled by C04), FoldLaws, LoadLaws, Utf8Total (sampled here), and that the scalar models mirror the "
         "routines (C04's routines stream for the unmarshal side, the leaf-marshallers stream here for the marshal side)",
-        "leaf bridge: Any, bare containers and exotic leaves of the core model are outside the scalar model; for them "
-        "the leaf laws stay sampled hypotheses",
+        "leaf bridge: bare containers and exotic leaves of the core model are outside the leaf table; for them the "
+        "leaf laws stay sampled hypotheses (Any / object are the pass-through kind LAny)",
     ]
